@@ -802,6 +802,10 @@ func main() {
 		}
 	}
 	replica.VerifDisableReplicaLoop()
+	if f.Part == "race" {
+		runRacePart(rep, f)
+		return
+	}
 	installSeams()
 
 	if f.Replay != "" {
